@@ -137,7 +137,7 @@ def run_shard(ctx):
     from vlib.universe import warm_up
 
     try:
-        ctx.extra["first_use_order"] = warm_up(U, ctx.rng("warm-up"))[:6]
+        ctx.extra["first_use_order"] = warm_up(U, ctx.rng("warm-up"), ctx)[:6]
     except Exception as e:  # noqa: BLE001 - constructing a default instance walks the generated child enumeration
         ctx.violation("valid-construction-raises", f"constructing a valid default instance raised {type(e).__name__}: {e}", {"where": "first use of every class in a random order"})
     n_large = ctx.params["large_trees"]
